@@ -200,21 +200,24 @@ func c11Diverge(e *c11Env, pattern, input string) (kind string, stage int, on, o
 }
 
 // c11Report minimises a divergent direct case and reports it under a root-cause oriented class.
-func c11Report(w *fw.W, e *c11Env, st *c11State, pattern, input, source, kind string) {
+// on/off/stage are what the caller observed for (pattern, input).
+func c11Report(w *fw.W, e *c11Env, st *c11State, pattern, input, source, kind string, stage int, on, off c11Res) {
 	mp, mi := pattern, input
 	minimised := false
 	if st.minimised < st.maxMinimise {
 		st.minimised++
 		minimised = true
-		mp, mi = c11Minimise(pattern, input, 1500, func(p, in string) bool {
+		mp, mi = c11Minimise(pattern, input, 400, func(p, in string) bool {
 			k, _, _, _ := c11Diverge(e, p, in)
 			return k == kind
 		})
-	}
-	k, stage, on, off := c11Diverge(e, mp, mi)
-	if k != kind { // cannot happen (the minimiser only keeps what still diverges the same way)
-		mp, mi = pattern, input
-		_, stage, on, off = c11Diverge(e, mp, mi)
+		if mp != pattern || mi != input {
+			if k, s2, on2, off2 := c11Diverge(e, mp, mi); k == kind {
+				stage, on, off = s2, on2, off2
+			} else { // cannot happen: the minimiser only keeps what still diverges the same way
+				mp, mi = pattern, input
+			}
+		}
 	}
 	class := c11Class(kind, stage, mp)
 	if !minimised {
@@ -334,6 +337,7 @@ func c11E2E(w *fw.W, e *c11Env, pattern, source string, inputs []string, direct 
 	}
 	defer pair.close()
 	w.Count("e2e_patterns", 1)
+	reported := map[string]bool{}
 	for i, in := range inputs {
 		if w.Tracing() {
 			w.Trace(c11MkCase(pattern, in, source, "e2e"))
@@ -352,6 +356,11 @@ func c11E2E(w *fw.W, e *c11Env, pattern, source string, inputs []string, direct 
 			w.Cover("e2e_vs_direct_mismatch_samples", strconv.QuoteToASCII(pattern)+" "+strconv.QuoteToASCII(in))
 		}
 		if kind := c11Kind(on, off); kind != "" {
+			if reported[kind] {
+				w.Count("divergences_same_pattern_not_reported_again", 1)
+				continue
+			}
+			reported[kind] = true
 			stage := 0
 			if ops, _, _ := c11Build(pattern); ops != nil {
 				fw.Guard(func() { stage = verifapi.RxStage(ops.on, in) })
@@ -416,6 +425,7 @@ func c11Pattern(w *fw.W, e *c11Env, st *c11State, pattern, source string, n, e2e
 	ph := fw.Hash(pattern)
 	var direct []c11Res
 	matched, rejected := 0, 0
+	reported := map[string]bool{}
 	for _, in := range inputs {
 		if w.Tracing() {
 			w.Trace(c11MkCase(pattern, in, source, "direct"))
@@ -457,7 +467,15 @@ func c11Pattern(w *fw.W, e *c11Env, st *c11State, pattern, source string, n, e2e
 			w.Nontrivial(ph ^ fw.Hash(in)*0x9e3779b97f4a7c15)
 		}
 		if kind := c11Kind(on, off); kind != "" {
-			c11Report(w, e, st, pattern, in, source, kind)
+			// one report per (pattern, kind of divergence, deciding stage); further inputs of
+			// the same pattern diverging the same way are counted only
+			key := kind + "/" + strconv.Itoa(stage)
+			if reported[key] {
+				w.Count("divergences_same_pattern_not_reported_again", 1)
+			} else {
+				reported[key] = true
+				c11Report(w, e, st, pattern, in, source, kind, stage, on, off)
+			}
 		}
 	}
 	w.Count("inputs", len(inputs))
@@ -497,9 +515,9 @@ type c11Sizes struct {
 
 func c11SizesFor(t fw.Tier) c11Sizes {
 	if t == fw.Thorough {
-		return c11Sizes{batches: 64, genPatterns: 24000, genInputs: 150, crsInputs: 2000, e2eEvery: 40, e2eInputs: 24, maxMini: 300}
+		return c11Sizes{batches: 64, genPatterns: 24000, genInputs: 150, crsInputs: 2000, e2eEvery: 40, e2eInputs: 24, maxMini: 40}
 	}
-	return c11Sizes{batches: 16, genPatterns: 2500, genInputs: 60, crsInputs: 120, e2eEvery: 25, e2eInputs: 12, maxMini: 150}
+	return c11Sizes{batches: 16, genPatterns: 2500, genInputs: 60, crsInputs: 120, e2eEvery: 25, e2eInputs: 12, maxMini: 12}
 }
 
 func c11Run(w *fw.W, b fw.Batch) {
@@ -563,8 +581,8 @@ func c11Replay(w *fw.W, raw json.RawMessage) {
 	st := &c11State{maxMinimise: 10, sampler: &c11Sampler{r: w.Rng, cap: 160}}
 	pattern, input := c.pattern(), c.input()
 	w.Eval(1)
-	if kind, _, _, _ := c11Diverge(e, pattern, input); kind != "" {
-		c11Report(w, e, st, pattern, input, c.Source, kind)
+	if kind, stage, on, off := c11Diverge(e, pattern, input); kind != "" {
+		c11Report(w, e, st, pattern, input, c.Source, kind, stage, on, off)
 	}
 	if c.Mode == "e2e" && c11E2EOK(pattern) {
 		c11E2E(w, e, pattern, c.Source, []string{input}, nil)
